@@ -294,13 +294,16 @@ def run(ctx):
   ctx.transitions += 3 * len(cases)
   reg = registry(tf, tfl)
   rng = np.random.default_rng(ctx.seed + 1111)
+  arr = lambda c: False
   if ctx.quick:
     # all singles, and every third pair (seeded rotation)
-    cases = [c for j, c in enumerate(cases) if len(c["args"]) <= 1 or (j + ctx.seed) % 3 == 0]
+    # (array-valued arguments are always kept: an array travels into nested configs, e.g. of the initializer)
+    arr = lambda c: any("np." in str(a[1]) for a in c["args"])
+    cases = [c for j, c in enumerate(cases) if len(c["args"]) <= 1 or (j + ctx.seed) % 3 == 0 or arr(c)]
   events, rejected = [], 0
   for c in cases:
     # the save / load steps of the protocol are run for every single-argument case (thorough: for the pairs as well)
-    fmts = ("keras", "h5") if (len(c["args"]) <= 1 or not ctx.quick) else ()
+    fmts = ("keras", "h5") if (len(c["args"]) <= 1 or not ctx.quick or arr(c)) else ()
     ev = one_round_trip(tf, tfl, reg, c["cls"], [tuple(a) for a in c["args"]], rng, save_formats=fmts)
     if ev is None:
       rejected += 1
